@@ -99,6 +99,31 @@ def check_vec(ctx, config, rule):
             ca = [e for e in r0.events if e.kind == 'call' and (e.callee or '').endswith('checked_add')]
             un = [e for e in r1.events if e.kind == 'call' and (e.callee or '').endswith('::extend_from_slice_copy_unchecked')]
             okc = len(ca) == 1 and ca[0].args[0] == ('param', 2) and ca[0].args[1][0] == 'app' and ca[0].args[1][1] == 'len' and r0.ret == ('app', 'checked_add', ca[0].args[0], ca[0].args[1]) and len(un) == 1 and 'upvar0' in show(un[0].args[0])
+        if not (okv and okc) and not tf and len(rs) == 1 and rs[0].args[0] == SELF:
+            # the same written with two `for` loops: an Option accumulator (Some(0), then checked_add of each slice length),
+            # `.expect(..)` of it reserved once, then one extend_from_slice_copy_unchecked per slice of the same source
+            acc_ok = False
+            for (bid, h), rec in r.loops.items():
+                if bid != b['id']:
+                    continue
+                for l, symv in rec['sym'].items():
+                    init = rec['init'].get(l)
+                    if init is None or not (init[0] == 'agg' and init[2] == 'Some' and field_of(init, '0') == ('c', 0)) or not rec['step']:
+                        continue
+                    stepok = True
+                    for sv in rec['step']:
+                        v = sv['env'].get(l)
+                        okstep = v is not None and v[0] == 'app' and v[1] == 'checked_add' and v[2] == ('app', 'vproj', symv, 'Some', '0') and v[3][0] == 'app' and v[3][1] == 'len' \
+                            and any(isinstance(x, tuple) and x and x[0] == 'call' and x[1].endswith('Iterator>::next') for x in subterms(v[3]))
+                        stepok = stepok and (okstep or v == symv)
+                    if stepok and symv in subterms(rs[0].args[1]) and any(e.kind == 'call' and (e.callee or '').split('::')[-1] in ('expect', 'unwrap') and e.args and e.args[0] == symv for e in own_calls(r)):
+                        acc_ok = True
+            its = [e for e in own_calls(r) if 'IntoIterator for &' in (e.callee or '') and e.args and e.args[0] == ('param', 2)]
+            un = [e for e in own_calls(r) if (e.callee or '').endswith('::extend_from_slice_copy_unchecked')]
+            nxs = [e for e in own_calls(r) if (e.callee or '').endswith('Iterator>::next') and 'slice::iter::Iter<' in (e.callee or '')]
+            app_ok = len(un) == 1 and un[0].args[0] == SELF and len(its) == 2 and any(nx.ret in subterms(un[0].args[1]) and arena.foreach_loop(I, r, b, nx, un[0]) for nx in nxs) \
+                and r.events.index(rs[0]) < r.events.index(un[0])
+            okv, okc = acc_ok, app_ok
         C.check('Vec::extend_from_slices_copy', 'reserve(checked sum of the slice lengths) once, then each slice appended without further checks, in order', okv and okc, '', b.get('span'))
     # ---- from_iter_in
     bs = [b for b in db.fn_bodies() if b['kind'] == 'assoc_fn' and (b['meta'].get('impl_adt') or '').endswith('vec::Vec') and b['meta'].get('name') == 'from_iter_in' and not b['meta'].get('impl_trait')]
@@ -131,13 +156,31 @@ def check_vec(ctx, config, rule):
         for b in impls(db, adt, 'collect_in::FromIteratorIn', 'from_iter_in'):
             I, r = arena.run_fn(ctx, b['id'], config)
             fw = [e for e in own_calls(r) if (e.callee or '').endswith('::from_iter_in')]
-            C.check('FromIteratorIn for ' + label, 'forwards (iter, alloc) in order to the inherent from_iter_in and returns its result', len(fw) == 1 and fw[0].args == [('param', 1), ('param', 2)] and (r.ret == fw[0].ret or adt != 'vec::Vec'), '', b.get('span'))
+            okv = len(fw) == 1 and fw[0].args == [('param', 1), ('param', 2)] and (r.ret == fw[0].ret or adt != 'vec::Vec')
+            if not okv and not [e for e in fw if adt.split('::')[-1] + '::' in (e.callee or '') or adt in (e.callee or '')]:
+                # the inherent constructor's body written out in the impl: an empty collection in `alloc`, fed with the whole
+                # iterator (extend, or one push per item), returned
+                nw = [e for e in own_calls(r) if (e.callee or '').endswith('::new_in') and e.args == [('param', 2)]]
+                ex = own_calls(r, trait='Extend::extend')
+                if adt == 'vec::Vec':
+                    okv = len(nw) == 1 and len(ex) == 1 and ex[0].args[1] == ('param', 1) and ex[0].args[0][0] == 'addr' and ex[0].args[0][1][0] == 'local'
+                elif adt == 'string::String':
+                    pu = [e for e in own_calls(r) if (e.callee or '').endswith("String::<'bump>::push")]
+                    nx = [e for e in own_calls(r) if (e.extra.get('trait_path') or e.callee or '').endswith('Iterator::next')]
+                    it = [e for e in own_calls(r) if (e.extra.get('trait_path') or e.callee or '').endswith('IntoIterator::into_iter') and e.args == [('param', 1)]]
+                    okv = len(nw) == 1 and ((len(ex) == 1 and ex[0].args[1] == ('param', 1)) or
+                                            (len(pu) == 1 and len(nx) == 1 and len(it) == 1 and pu[0].args[1] == ('app', 'vproj', nx[0].ret, 'Some', '0') and arena.foreach_loop(I, r, b, nx[0], pu[0])))
+                else:
+                    vb = [e for e in own_calls(r) if (e.callee or '').endswith("Vec::<'bump, T>::from_iter_in") and e.args == [('param', 1), ('param', 2)]]
+                    ib = [e for e in own_calls(r) if (e.callee or '').endswith('::into_boxed_slice')]
+                    okv = len(vb) == 1 and len(ib) == 1 and ib[0].args[0] == vb[0].ret and r.ret == ib[0].ret
+            C.check('FromIteratorIn for ' + label, 'forwards (iter, alloc) in order to the inherent from_iter_in and returns its result', okv, '', b.get('span'))
     ci = [b for b in db.fn_bodies() if b['id'].endswith('collect_in::CollectIn::collect_in')]
     for b in ci:
         I, r = arena.run_fn(ctx, b['id'], config)
         fw = own_calls(r, trait='FromIteratorIn::from_iter_in')
         C.check('CollectIn::collect_in', 'C::from_iter_in(self, alloc), result returned', len(fw) == 1 and fw[0].args == [('param', 1), ('param', 2)] and r.ret == fw[0].ret, '', b.get('span'))
-    rb = [b for b in db.fn_bodies() if b['kind'] == 'assoc_fn' and 'FromIteratorIn<std::result::Result<T, E>>>::from_iter_in' in b['id'].replace('core::', 'std::')]
+    rb = [b for b in db.fn_bodies() if b['kind'] == 'assoc_fn' and b['meta'].get('name') == 'from_iter_in' and b['id'].replace('core::', 'std::').endswith('FromIteratorIn<std::result::Result<T, E>>>::from_iter_in')]
     for b in rb:
         I, r = arena.run_fn(ctx, b['id'], config)
         cc = own_calls(r, trait='CollectIn::collect_in') + [e for e in own_calls(r, trait='FromIteratorIn::from_iter_in') if e.callee != b['id']]
@@ -145,6 +188,9 @@ def check_vec(ctx, config, rule):
         okv = len(cc) == 1 and cc[0].args[1] == ('param', 2) and any(t[0] == 'agg' and t[2] == 'Ok' and field_of(t, '0') == cc[0].ret for t in alts) and any(t[0] == 'agg' and t[2] == 'Err' for t in alts) and len(alts) == 2
         C.check('FromIteratorIn for Result', 'Ok(container collected from the Ok items) unless an Err item was seen, then that Err', okv, '', b.get('span'))
         cl = [x for x in db.fn_bodies() if x['kind'] == 'closure' and x['id'].startswith(b['id'])]
+        if not cl:
+            # the adapter written as a function-local struct with its own Iterator::next instead of a from_fn closure
+            cl = [x for x in db.fn_bodies() if x['kind'] == 'assoc_fn' and x['meta'].get('name') == 'next' and (b['id'] + '::') in x['id']]
         okc = False
         if cl:
             I2, r2 = arena.run_fn(ctx, cl[0]['id'], config)
@@ -156,9 +202,9 @@ def check_vec(ctx, config, rule):
                 # (item as <variant>).0 of an item that came out of Iterator::next
                 return isinstance(t, tuple) and t[:2] == ('app', 'vproj') and t[3] == variant and any(isinstance(x, tuple) and x and x[0] == 'call' and x[1].endswith('Iterator::next') for x in subterms(t[2]))
             okc = len(somes) == 1 and ('as Ok' in show(somes[0]) or variant_payload(field_of(somes[0], '0'), 'Ok')) and len(nones) >= 2 and len(st) == 1 \
-                and ('as Err' in show(st[0].val) or variant_payload(field_of(st[0].val, '0'), 'Err')) and ('upvar' in show_lv(st[0].lv) or 'upvar' in repr(st[0].lv))
+                and ('as Err' in show(st[0].val) or variant_payload(field_of(st[0].val, '0'), 'Err')) and ('upvar' in show_lv(st[0].lv) or 'upvar' in repr(st[0].lv) or (st[0].lv[0] == 'deref' and st[0].lv[1][0] == 'load' and ('param', 1) in subterms(st[0].lv[1])))
         C.check('FromIteratorIn for Result', 'the adapter yields the Ok payloads, records the first Err and stops there', okc)
-    ob = [b for b in db.fn_bodies() if b['kind'] == 'assoc_fn' and 'FromIteratorIn<std::option::Option<T>>>::from_iter_in' in b['id'].replace('core::', 'std::')]
+    ob = [b for b in db.fn_bodies() if b['kind'] == 'assoc_fn' and b['meta'].get('name') == 'from_iter_in' and b['id'].replace('core::', 'std::').endswith('FromIteratorIn<std::option::Option<T>>>::from_iter_in')]
     for b in ob:
         I, r = arena.run_fn(ctx, b['id'], config)
         cc = own_calls(r, trait='CollectIn::collect_in') + [e for e in own_calls(r, trait='FromIteratorIn::from_iter_in') if e.callee != b['id']]
